@@ -547,6 +547,63 @@ pub open spec fn handle_post(ast: ASTTy, state: State, ctx: Context, c: Core) ->
         forall|m: Seq<char>, n: Seq<char>| imp_has_from(*old(imp), m, n) ==> imp_has_from(*final(imp), m, n),   //# imports_only_grow [C16]
 //@@ END
 
+// ---- classes (C17: a class / type definition is emitted from its declared name, parents and body; C16: NewType) -----------------
+/// A-EXT: extract_class (class bodies are rebuilt through a HashMap and iterator chains: outside reach) is a function of its arguments
+pub uninterp spec fn extracted(ty: StringName, body: Option<Box<ASTTy>>, args: Seq<ASTTy>, parents: Seq<Core>, state: State, ctx: Context) -> Option<Core>;
+#[verifier::external_body]
+pub fn extract_class(ty: &StringName, body: &Option<Box<ASTTy>>, args: &[ASTTy], parents: &[Core], imp: &mut Imports, state: &State, ctx: &Context) -> (r: GenResult)
+    ensures match extracted(*ty, *body, args@, parents@, *state, *ctx) { Some(c) => r == Ok::<Core, Box<UnimplementedErr>>(c), None => r is Err },
+        forall|m: Seq<char>, n: Seq<char>| imp_has_from(*old(imp), m, n) ==> imp_has_from(*final(imp), m, n),
+{ unimplemented!() }
+/// `X = NewType("X", <isa>)`
+pub open spec fn newtype_assign(c: Core, ty: StringName, isa: Name) -> bool {
+    c matches Core::Assign { left, right, op } && op == CoreOp::Assign
+    && (*left matches Core::Id { lit } && lit@ == ty.name@)
+    && (*right matches Core::FunctionCall { function, args } && (*function matches Core::Id { lit: f } && f@ == "NewType"@)
+        && args@.len() == 2 && (args@[0] matches Core::Str { string } && string@ == ty.name@) && args@[1] == name_to_py(isa))
+}
+pub open spec fn class_post(ast: ASTTy, state: State, ctx: Context, r: GenResult) -> bool {
+    match ast.node {
+        // a type alias becomes a NewType named after the alias, over the Python spelling of the aliased type
+        NodeTy::TypeAlias { ty, isa, conditions } => r matches Ok(c) && newtype_assign(c, ty, isa),
+        // a type definition is an interface: extracted in interface state, with (at most) the one parent it declares, no arguments
+        NodeTy::TypeDef { ty, isa, body } => {
+            let parents = match isa { Some(n) => seq![name_to_py(n)], None => Seq::<Core>::empty() };
+            match extracted(ty, body, Seq::<ASTTy>::empty(), parents, State { interface: true, ..state }, ctx) { Some(c) => r == Ok::<Core, Box<UnimplementedErr>>(c), None => r is Err }
+        },
+        // a class: extracted (not as an interface) from its declared name, body and arguments, with the conversion of its declared
+        // parents, in order, in the caller's state
+        NodeTy::Class { ty, args, parents, body } => match convvec(parents@, state, ctx) {
+            Some(ps) => match extracted(ty, body, args@, ps, State { interface: false, ..state }, ctx) { Some(c) => r == Ok::<Core, Box<UnimplementedErr>>(c), None => r is Err },
+            None => r is Err,
+        },
+        // a parent without arguments is named, one with arguments is called with their conversion
+        NodeTy::Parent { ty, args } => if args@.len() == 0 { r == Ok::<Core, Box<UnimplementedErr>>(sn_to_py(ty)) } else {
+            match convvec(args@, state, ctx) { Some(a) => r matches Ok(c) && (c matches Core::FunctionCall { function, args: a2 } && *function == sn_to_py(ty) && a2@ == a), None => r is Err }
+        },
+        _ => r is Err,
+    }
+}
+
+//@@ FN src/generate/convert/class.rs | free | convert_class | props=C17,C16,C03
+//@@ REPLACE deep
+//@@< isa .as_ref() .map_or_else(Vec::new, |isa| $$)
+//@@> (match isa.as_ref() { Some(isa) => $$1, None => Vec::new() })
+//@@ REPLACE deep
+//@@< extract_class(ty, body, &[], &parents, imp, $$, ctx)
+//@@> { let verif_no_args: Vec<ASTTy> = Vec::new(); proof { assert(verif_no_args@ =~= Seq::<ASTTy>::empty()); assert(parents@ =~= (match *isa { Some(n) => seq![name_to_py(n)], None => Seq::<Core>::empty() })); } extract_class(ty, body, verif_no_args.as_slice(), parents.as_slice(), imp, $$1, ctx) }
+//@@ REPLACE deep
+//@@< extract_class( ty, body, args, &parents, imp, $$, ctx, )
+//@@> extract_class( ty, body, args.as_slice(), parents.as_slice(), imp, $$1, ctx, )
+//@@ REPLACE deep
+//@@< NodeTy::Parent { ty, args } if args.is_empty() => $$, NodeTy::Parent { ty, args } => Ok($$),
+//@@> NodeTy::Parent { ty, args } => if args.is_empty() { $$1 } else { Ok($$2) },
+    ensures
+        class_post(*ast, *state, *ctx, r),                                       //# classes_aliases_and_parents_are_emitted_from_what_is_declared [C17]
+        (ast.node is TypeAlias && r is Ok) ==> imp_has_from(*final(imp), "typing"@, "NewType"@),   //# newtype_import_registered [C16]
+        forall|m: Seq<char>, n: Seq<char>| imp_has_from(*old(imp), m, n) ==> imp_has_from(*final(imp), m, n),   //# imports_only_grow [C16]
+//@@ END
+
 } // verus!
 
 fn main() {}
